@@ -527,6 +527,34 @@ type fakeSG struct{ fakeGen }
 
 func (g fakeSG) Handle() verifhook.PluginHandle { return fakeHandle{g.name} }
 
+// fanoutSameName: two generators whose handles report one name (the same plugin
+// requested twice) and that both produce the same path: a conflict.
+func fanoutSameName() *scenario {
+	sc := fanoutScenario(2, true)
+	sc.name = "fanout-2-same-name-overlap"
+	inner := sc.body
+	_ = inner
+	gens := verifhook.PluginMultiServiceGenerator{
+		fakeSG{fakeGen{"dup", map[string][]byte{"shared/x.go": []byte("1"), "a/a.go": []byte("a")}}},
+		fakeSG{fakeGen{"dup", map[string][]byte{"shared/x.go": []byte("2"), "b/b.go": []byte("b")}}},
+	}
+	sc.expect = []string{"conflict"}
+	sc.body = func(results *[]string) func() {
+		return func() {
+			_, err := gens.Generate(&api.GenerateServiceRequest{})
+			switch {
+			case err == nil:
+				(*results)[0] = "no error: one plugin's shared/x.go silently replaced the other's"
+			case strings.Contains(err.Error(), "shared/x.go"):
+				(*results)[0] = "conflict"
+			default:
+				(*results)[0] = "error: " + err.Error()
+			}
+		}
+	}
+	return sc
+}
+
 func fanoutScenario(n int, overlap bool) *scenario {
 	sc := &scenario{name: fmt.Sprintf("fanout-%d-overlap=%v", n, overlap)}
 	var want []string
@@ -605,7 +633,7 @@ func run(w *ev.W) {
 			}
 		}
 	}
-	scs = append(scs, frameScenario(2), fanoutScenario(2, false), fanoutScenario(2, true), fanoutScenario(3, false), fanoutScenario(3, true))
+	scs = append(scs, frameScenario(2), fanoutScenario(2, false), fanoutScenario(2, true), fanoutScenario(3, false), fanoutScenario(3, true), fanoutSameName())
 	if !w.Quick() {
 		scs = append(scs, frameScenario(3))
 	}
